@@ -161,8 +161,10 @@ def model_world(world, extmod=None):
 
 VAR_VALUES = [jv("int", "0"), jv("int", "5"), jv("str", "a"), jv("str", ""), jv("int", "-3"),
               jv("list", [jv("int", "1"), jv("str", "x")]), jv("dict", [[jv("str", "k"), jv("int", "1")]]),
-              jv("list", [])]
-CONSTS = [jv("int", "1"), jv("int", "2"), jv("str", "s"), jv("none"), jv("bool", True), jv("int", "0"), jv("str", "")]
+              jv("list", [jv("int", "2")])]
+# NB: both pools are injective for dds_hash (no two members in one C05 collision class: no True next to 1,
+# no [] next to ''), so that a C05 identification never shows up as a C01 staleness.
+CONSTS = [jv("int", "1"), jv("int", "2"), jv("str", "s"), jv("none"), jv("bool", False), jv("str", "")]
 
 
 def gen_call_args(rng, callee_params, n_prev_items, own_params, allow_runtime=True):
@@ -273,6 +275,41 @@ def sites_ok(world):
     # a path may appear at one keep site only
     ps = [it["path"] for f in world["funs"] for it in f["items"] if it["k"] == "keep"]
     return len(ps) == len(set(ps))
+
+
+def gen_chain_world(rng):
+    """directed stratum: a literal argument flows down a chain of keeps through run-time expressions
+    (the case split of `sig_sound`: a callee's context must carry the caller's inputs)"""
+    n = rng.randint(3, 5)
+    vars_ = [["V0", rng.choice(VAR_VALUES)]]
+    funs = []
+    for i in range(n):
+        params = [] if i == 0 else [["a", rng.choice([None, rng.choice(CONSTS)])]]
+        items = []
+        if i < n - 1:
+            if i == 0:
+                arg = {"c": rng.choice(CONSTS)}
+            else:
+                arg = {"r": [], "p": ["a"]}
+            if rng.random() < 0.3 and i > 0:
+                items.append({"k": "call", "f": "f%d" % (n - 1)}) if i < n - 2 else None
+                items = [x for x in items if x]
+                if items and "r" in arg:
+                    arg = {"r": [0], "p": ["a"]}
+            it = {"k": "keep", "path": "/c%d" % i, "f": "f%d" % (i + 1), "args": [], "kwargs": []}
+            if rng.random() < 0.5:
+                it["args"] = [arg]
+            else:
+                it["kwargs"] = [["a", arg]]
+            items.append(it)
+        funs.append({"name": "f%d" % i, "params": params, "store_path": None, "tag": "f%d#0" % i,
+                     "reads": ["V0"] if rng.random() < 0.4 else [], "items": items, "fails": None, "uses_ext": False})
+    # the last function must be callable without arguments when it is also called plainly
+    if any(it["k"] == "call" for f in funs for it in f["items"]):
+        if funs[-1]["params"] and funs[-1]["params"][0][1] is None:
+            funs[-1]["params"][0][1] = rng.choice(CONSTS)
+    w = {"vars": vars_, "funs": funs, "ext_version": 0, "extra": []}
+    return w if sites_ok(w) else gen_chain_world(rng)
 
 
 def reachable(world):
